@@ -269,7 +269,8 @@ fn build_tera(cfg: Option<&J>) -> Result<Tera, String> {
                 .collect::<Vec<_>>(),
         );
     }
-    if cfg.get("escape").and_then(|x| x.as_str()) == Some("brackets") {
+    let esc = cfg.get("escape").and_then(|x| x.as_str());
+    if esc == Some("brackets") || esc == Some("brackets-then-reset") {
         t.set_escape_fn(|input: &str, out: &mut dyn Write| {
             for c in input.chars() {
                 match c {
@@ -280,6 +281,9 @@ fn build_tera(cfg: Option<&J>) -> Result<Tera, String> {
             }
             Ok(())
         });
+        if esc == Some("brackets-then-reset") {
+            t.reset_escape_fn();
+        }
     }
     if let Some(g) = cfg.get("gctx") {
         for (k, v) in g.as_object().unwrap() {
